@@ -20,6 +20,8 @@ from core import enc_value, dec_value, outcome_of_value, outcome_of_exc
 from wbgen import a1
 
 NAME = 'clocksim'
+# probes that count as injected disturbances (reported under faults_fired in the evidence)
+FAULT_PROBES = ('clock_stepped_backward', 'tz_changed', 'dst_transition_crossed', 'midnight_crossed_inside_one_evaluation', 'midnight_crossed_between_two_queries', 'month_length_class_changed', 'override_between_two_instants')
 NEEDS_REF = False
 WB_PATH = '/simfs/clock.xlsx'
 EPOCH = datetime.datetime(1970, 1, 1)
